@@ -427,10 +427,19 @@ class Oracle:
         self.violations = []
         self.stats = {}
         self.probes = {}
+        self.is_baseline = False
+        self.baseline = {}
         self.states = set()
 
     def bump(self, d, k, n=1):
         d[k] = d.get(k, 0) + n
+
+    def run_baseline(self, req, rec):
+        o2 = type(self)(self.case, self.Expr, self.fa)
+        o2.is_baseline = True
+        ex = H.Executor(EventLog(keep=False), o2.on_text, {}, {}, {})
+        ex.run(H.solo_history(req, rec))
+        return set("%s|%s" % (v["cls"], v["key"]) for v in o2.violations)
 
     def violation(self, cls, key, rec, **detail):
         key = key + "|" + rec["key"].split(":")[1]  # the function: a finding about one program never hides another's
@@ -443,6 +452,16 @@ class Oracle:
         if t not in ("stablehlo", "xla_client"):
             return
         g = req["g"]
+        if req["func"].startswith("gen:") and not self.is_baseline:
+            # generated programs are judged differentially: flagged only if the same request, made alone on a
+            # fresh context without faults, passes the same oracle (program-dimension defects are not claimed)
+            if rec["key"] not in self.baseline:
+                self.baseline[rec["key"]] = self.run_baseline(req, rec)
+            if self.baseline[rec["key"]]:
+                self.bump(self.stats, "generated_program_fails_alone")
+                self.bump(self.stats, "fails_alone:" + sorted(self.baseline[rec["key"]])[0][:60])
+                return
+            self.bump(self.stats, "generated_program_texts_checked")
         self.bump(self.stats, "texts:" + t)
         if rec["prior"]:
             self.bump(self.probes, "text_from_context_with_history")
@@ -529,7 +548,7 @@ class C06Engine(GenEngineBase):
         cfg = dict(targets=["stablehlo", "xla_client", "xla_client", "stablehlo", "cpp", "python"], n_requests=24 if tier == "quick" else 40,
                    allow_faults=True, shared=True, p_shared_choices=[0.3, 0.6, 0.9],
                    allow_env=["clang_absent", "clang_exit1", "clang_killed", "tmpdir_unwritable"] if faulty else None,
-                   reprint_targets=["stablehlo", "python", "cpp"])
+                   reprint_targets=["stablehlo", "python", "cpp"], generated_programs=0.35)
         return {"seed": seed, "hashseed": None, "history": H.gen_history(seed, self.universe, cfg)}
 
     def run_case(self, case):
